@@ -133,7 +133,10 @@ func (w *World) execCloseOp(ctx context.Context, toks []string) (bool, error) {
 				}
 				return err
 			})
-			add("query", func() error { _, err := st.Query(ctx, func(interface{}) (bool, error) { return true, nil }); return err })
+			add("query", func() error {
+				_, err := st.Query(ctx, func(interface{}) (bool, error) { return true, nil })
+				return err
+			})
 		}
 		add("load", func() error { return s.Load(ctx, -1) })
 		add("sync", func() error { return s.Sync(ctx, cloneEntries(w.anyHeads())) })
